@@ -29,6 +29,8 @@ TS0 == 1700000000
 RECURSIVE SeqOfSet(_)
 SeqOfSet(S) == IF S = {} THEN <<>> ELSE LET x == CHOOSE x \in S : TRUE IN <<x>> \o SeqOfSet(S \ {x})
 SortedWalks(T, kind) == SeqOfSet(AllWalks(T, kind))
+RECURSIVE TakeSome(_, _)
+TakeSome(S, n) == IF n = 0 \/ S = {} THEN {} ELSE LET x == CHOOSE x \in S : TRUE IN {x} \cup TakeSome(S \ {x}, n - 1)
 
 BreakPeers(S) ==   \* recompute peer MACs under beta_i (the broken rule)
   [S EXCEPT !.es = [i \in DOMAIN S.es |->
@@ -138,9 +140,15 @@ SegOut(S) == [id |-> S.id, kind |-> S.kind, ts |-> S.ts,
                         [as |-> e.as, in |-> e.in, eg |-> e.eg, exp |-> e.exp, mtu |-> e.mtu, inmtu |-> e.inmtu,
                          peers |-> [k \in DOMAIN e.peers |-> [pif |-> e.peers[k].pif, pas |-> e.peers[k].pas,
                                      prif |-> e.peers[k].prif, exp |-> e.peers[k].exp, pmtu |-> e.peers[k].pmtu]]]]]
+\* alts: the other loop-free candidates with the same interface sequence (any of them may be the one the
+\* implementation keeps; at most 8 are listed)
 PathOut(I, p, s, d) ==
-  LET rt == RoundTrip(I.T, AllUp(I.T), PktMaxTs(MkPkt(p, s, d)), p, s, d) IN
+  LET rt == RoundTrip(I.T, AllUp(I.T), PktMaxTs(MkPkt(p, s, d)), p, s, d)
+      same == {q \in I.cand[<<s, d>>] : q # p /\ NoAsTwice(q) /\ Ifaces(q) = Ifaces(p)}
+      alts == SeqOfSet(TakeSome(same, 8))
+  IN
   [ifs |-> IfsOut(Ifaces(p)), pieces |-> [k \in DOMAIN p |-> PieceOut(p[k])],
+   alts |-> [n \in DOMAIN alts |-> [k \in DOMAIN alts[n] |-> PieceOut(alts[n][k])]],
    mtu |-> PathMtu(I.T, p), exp |-> PathExpiry(p), nlinks |-> Len(Ifaces(p)) \div 2,
    walk |-> TraceOut(rt.fwd.trace), rev |-> TraceOut(rt.rev.trace), ok |-> rt.ok]
 PairOut(I, sd) ==
